@@ -55,7 +55,8 @@ def search(seed, tier, obligation, hints):
             cases += 1
             why = chk(cfg)
             if why:
-                return {"found": True, "input": {"function": name, "cfg": cfg}, "observed": {"function": name, "clause": why}, "witness_key": f"{name}|{why.split('=')[0].strip()}", "cases": cases}
+                key = f"{name}|expon draw 0.0" if (name == "JsonRandom.random" and "expon" in str(cfg.get("spec")) and cfg.get("u") == 0.0) else f"{name}|{why.split('=')[0].strip()}"
+                return {"found": True, "input": {"function": name, "cfg": cfg}, "observed": {"function": name, "clause": why}, "witness_key": key, "cases": cases}
     return {"found": False, "cases": cases}
 
 
@@ -113,3 +114,64 @@ def expansion_cases():
 
 CHECKS["SequentialRunner._generate_markets[count-range-names]"] = (lambda: (c for c in expansion_cases() if c["kind"] == "markets"), check_expansion)
 CHECKS["SequentialRunner._generate_agents[count-range-names]"] = (lambda: (c for c in expansion_cases() if c["kind"] == "agents"), check_expansion)
+
+
+# ----------------------------------------------------------------------------- JsonRandom supports (C18); the generator is a stub that replays chosen draws
+class StubPrng:
+    def __init__(self, draws):
+        self.draws = list(draws); self.i = 0
+
+    def random(self):
+        v = self.draws[self.i % len(self.draws)]; self.i += 1
+        return v
+
+    def gauss(self, mu, sigma):
+        return mu + sigma * (self.random() - 0.5)
+
+
+def check_json_random(case):
+    from pams.utils.json_random import JsonRandom
+    spec, u = case["spec"], case["u"]
+    jr = JsonRandom(prng=StubPrng([u]))
+    try:
+        r = jr.random(json_value=spec)
+    except ValueError as e:
+        if case["valid"]:
+            return f"JsonRandom.random({spec}) with draw u={u} raised ValueError({e})"
+        return None
+    if not case["valid"]:
+        return f"malformed specification {spec} accepted"
+    kind = case["kind"]
+    if kind == "uniform":
+        lo, hi = case["args"]
+        if not ((lo <= r < hi) if lo < hi else (r == lo if lo == hi else hi < r <= lo)):
+            return f"uniform {spec}: {r} outside [{lo}, {hi})"
+    if kind == "const" and r != case["args"][0]:
+        return f"const {spec}: {r}"
+    if kind == "expon" and case["args"][0] >= 0 and not r >= 0:
+        return f"expon {spec}: {r} < 0"
+    if kind == "plain" and r != float(spec):
+        return f"plain {spec}: {r}"
+    return None
+
+
+def json_random_cases():
+    for u in (0.5, 0.999999, 1e-12, 0.0):
+        for lo, hi in ((1.0, 3.0), (2.0, 2.0), (-1, 1)):
+            yield {"spec": [lo, hi], "u": u, "valid": True, "kind": "uniform", "args": [lo, hi]}
+            yield {"spec": {"uniform": [lo, hi]}, "u": u, "valid": True, "kind": "uniform", "args": [lo, hi]}
+        yield {"spec": {"const": [4.5]}, "u": u, "valid": True, "kind": "const", "args": [4.5]}
+        yield {"spec": {"normal": [1.0, 2.0]}, "u": u, "valid": True, "kind": "normal", "args": [1.0, 2.0]}
+        for lam in (0.0, 2.0):
+            yield {"spec": {"expon": [lam]}, "u": u, "valid": True, "kind": "expon", "args": [lam]}
+        yield {"spec": 7, "u": u, "valid": True, "kind": "plain", "args": []}
+    for bad in ([1.0], [1, 2, 3], {"const": 1.0}, {"uniform": [1.0]}, {"normal": [1.0]}, {"expon": [1, 2]}, {"gamma": [1]}, {"const": [1], "expon": [1]}, {}):
+        yield {"spec": bad, "u": 0.5, "valid": False, "kind": "bad", "args": []}
+
+
+def _jr_check(case):
+    why = check_json_random(case)
+    return why
+
+
+CHECKS["JsonRandom.random"] = (json_random_cases, _jr_check)
